@@ -418,8 +418,10 @@ def _contract_gcxs(arg, shape=None, compressed_axes=None, **k):
         ca = list(compressed_axes) if compressed_axes is not None else [0]
         rows = int(np.prod([shp[a] for a in ca]))
         cols = int(np.prod([s for i, s in enumerate(shp) if i not in ca]))
-        if indptr.ndim != 1 or len(indptr) != rows + 1 or indptr[0] != 0 or indptr[-1] != len(indices) or (np.diff(indptr) < 0).any():
+        if indptr.ndim != 1 or len(indptr) != rows + 1 or indptr[0] != 0 or indptr[-1] != len(indices):
             _reject("indptr")
+        if (np.diff(indptr) < 0).any():
+            _reject("indptr decreasing")
         if len(indices) and (indices.min() < 0 or indices.max() >= cols):
             _reject("indices out of range")
     elif len(shp) == 1 and len(indices) and (indices.min() < 0 or indices.max() >= shp[0]):
